@@ -23,6 +23,7 @@ THEOREMS = [
     'Nb.C20.same_indices_everywhere',
     'Nb.C20.scaling_own_record',
     'Nb.C20.load_perm_invariant',
+    'Nb.C20.partial_read_eq_whole',
     'Nb.C20.strict_truncated_orig_counterexample',
     'Nb.C20.full_flag_meaning',
     'Nb.C20.truncated_exactly_full_volumes_partial',
@@ -38,6 +39,9 @@ ASSUMPTIONS = [
     'reshape are NumPy/nibabel behaviour observed through the per-slice payload identity, not modelled',
     'fp scale factors 1.0/SS and RI/(RS*SS) are exact rationals in the model; the harness maps the float64 '
     'values of the implementation back to the unique small rational that rounds to them',
+    'sliced reads: NumPy basic indexing / fileslice on the assembled array are taken from Basic/PySlice semantics on '
+    'the slice and volume axes (in-plane axes only checked for range/emptiness); the element values of a sliced read '
+    'are mapped back to slab identities with the public scale factors',
     'zooms/affine/dtype depend on the records only through n_slices/n_vols (modelled); the affine itself is '
     'checked by the oracle (bit-equal to the affine of the label-ordered file), not by the model',
 ]
@@ -47,7 +51,7 @@ RULE = ('data sets: versions V4/V4.1/V4.2 x 2-5 slices x up to 3 echoes x 3 dyna
         'permuted alike; dropped tail of 0..2*slices records (or random dropped records); x scaling {dv,fp} x '
         'strict_sort x permit_truncated; edge stream: slice numbers out of range, duplicate volume labels '
         '(V4-like diffusion), missing whole volumes, wrong maxima. A case is non-trivial when it has >1 volume or '
-        'is truncated; distinct by (cfg, records in file order, flags). helper stream: vol_numbers / vol_is_full on '
+        'is truncated; distinct by (cfg, records in file order, flags). read stream: for about half of the load cases (always for canonical / slice-major / volume-shuffled untruncated files) 5 index tuples read through the proxy (`[..., k]`, strided and negative slices, int+slice mixes, a few out-of-range ints), scaled and unscaled. helper stream: vol_numbers / vol_is_full on '
         'random slice-number lists.')
 
 def _r(sl, dy, pl):
@@ -176,6 +180,59 @@ def mk_case(d, stream):
     return Case(line, d, key, stream)
 
 
+def _fmt_item(it):
+    if it == 'e':
+        return 'e'
+    if isinstance(it, list):
+        return 's' + ','.join('_' if v is None else str(int(v)) for v in it)
+    return 'i%d' % int(it)
+
+
+def _to_index(slicer):
+    return tuple(Ellipsis if it == 'e' else slice(*it) if isinstance(it, list) else int(it) for it in slicer)
+
+
+def mk_read_case(d, slicers, stream='read'):
+    """sliced reads `dataobj[slicer]` of the data set `d` (same fields as a load case + 'slicers')"""
+    d = dict(d, op='read', slicers=[list(sl) for sl in slicers], stream=stream)
+    cfg = '%d,%d,%d,%d,%d,%d,%d' % (d['ver'], d['diffusion'], d['max'][0], d['max'][1], d['max'][2],
+                                   d['max'][3], d['max'][4])
+    recs = ';'.join(','.join(str(int(v)) for v in r) for r in d['recs'])
+    sls = '|'.join(';'.join(_fmt_item(it) for it in sl) for sl in d['slicers'])
+    line = 'C20 read %d %d %s %s %s %d,%d %s' % (d['strict'], d['permit'], d['scaling'], cfg, recs, XY[0], XY[1], sls)
+    return Case(line, d, ('read', cfg, recs, d['strict'], d['permit'], d['scaling'], sls), stream)
+
+
+def gen_slicers(rng, S, V, n):
+    """index tuples for an array of (expected) shape XY + (S[, V]): `[..., k]`, strided / negative slices,
+    int + slice mixes, now and then an out-of-range int"""
+    def plane():
+        return rng.choice([[None, None, None], [None, None, None], [None, None, -1], 0, 1, [1, None, None]])
+
+    def axis(n_):
+        r = rng.random()
+        if r < 0.35:
+            return rng.randrange(-n_, n_) if rng.random() < 0.95 else n_ + rng.randint(0, 1)
+        return rng.choice([[None, None, None], [None, None, -1], [None, None, 2], [1, None, None], [-2, None, None],
+                           [None, -1, None], [None, None, -2], [rng.randrange(n_), rng.randrange(n_) + 1, None]])
+    four = V > 1
+    out = []
+    last = V if four else S
+    for k in rng.sample(range(last), min(last, 2)):
+        out.append(['e', k])                                   # one whole volume / slice
+    while len(out) < n:
+        kind = rng.random()
+        if kind < 0.25:
+            out.append(['e', axis(last)])
+        elif kind < 0.45:
+            out.append([plane(), plane(), axis(S)])
+        elif four:
+            out.append([plane(), plane(), axis(S), axis(V)])
+        else:
+            out.append([plane(), plane(), axis(S)])
+    return out
+
+
 def mk_helper(op, smax, sl):
     sls = ','.join(map(str, sl)) if sl else '-'
     line = 'C20 volnos %s' % sls if op == 'volnos' else 'C20 isfull %d %s' % (smax, sls)
@@ -185,6 +242,8 @@ def mk_helper(op, smax, sl):
 def case_from_data(d):
     if d.get('op') in ('volnos', 'isfull'):
         return mk_helper(d['op'], d['smax'], d['sl'])
+    if d.get('op') == 'read':
+        return mk_read_case(d, d['slicers'], d.get('stream', 'read'))
     return mk_case(d, d.get('stream', 'main'))
 
 
@@ -295,6 +354,11 @@ def variants(rng, base, tier, n_orders):
                 d = dict(base, recs=kept, strict=strict, permit=permit, scaling=scaling, order=kind,
                          dropped=k, drop_mode=mode if k else None)
                 out.append(mk_case(d, 'main' if not k else 'truncated'))
+                # sliced reads through the proxy; always for the orders that keep the first and the last
+                # record in place without being sorted
+                if rng.random() < (1.0 if (kind in ('slice-major', 'volumes-shuffled', 'canonical') and not k) else 0.35):
+                    nvol = max(1, (len(kept) // S) if S else 1)
+                    out.append(mk_read_case(d, gen_slicers(rng, S, nvol, 5)))
     return out
 
 
@@ -463,6 +527,10 @@ def oracle_helper(d, out):
 def impl(case):
     if case.data.get('op') in ('volnos', 'isfull'):
         return impl_helper(case.data)
+    if case.data.get('op') == 'read':
+        o = observe_read(case.data)
+        case.extra = o
+        return o.get('line', o.get('err'))
     o = observe(case.data)
     case.extra = o
     return obs_line(o)
@@ -506,8 +574,173 @@ def _consistent(d):
     return ok and not partial and not oob
 
 
+def expected_records(d):
+    """Independent by-label reference: (number of volumes, records in output order) the loader must return;
+    (None, None) where the property makes no claim on the content (irregular edge inputs)"""
+    sets, complete, partial, dup, oob = analyse(d)
+    edge = d.get('edge')
+    S = d['max'][0]
+    expected = None
+    if d['strict'] and not dup and edge in (None, 'missing-volume', 'wrong-max', 'slice-gap'):
+        if complete:
+            keys = sorted(complete)
+            expected = [r for k in keys for r in complete[k]]
+            exp_nvol = len(keys)
+        else:
+            exp_nvol = 0
+    elif not d['strict'] and edge in (None, 'missing-volume', 'wrong-max', 'dup-labels', 'nodiff-bvals'):
+        # lax order: volume v is made of the v-th occurrence of every slice number, in file order
+        occ = {}
+        for r in d['recs']:
+            occ.setdefault(r[0], []).append(r)
+        exp_nvol = min(len(occ.get(s, [])) for s in range(1, S + 1))
+        if exp_nvol:
+            expected = [occ[s][v] for v in range(exp_nvol) for s in range(1, S + 1)]
+    else:
+        exp_nvol = None
+    return exp_nvol, expected
+
+
+def _expand(idx, ndim):
+    """index tuple with Ellipsis / missing axes filled in (Python reference for the selected positions)"""
+    idx = list(idx)
+    k = sum(1 for it in idx if it is not Ellipsis)
+    fill = [slice(None)] * (ndim - k)
+    if Ellipsis in idx:
+        i = idx.index(Ellipsis)
+        idx = idx[:i] + fill + idx[i + 1:]
+    else:
+        idx = idx + fill
+    return idx
+
+
+def _axis_positions(it, n):
+    return list(range(n)[it]) if isinstance(it, slice) else [range(n)[it]]
+
+
+def observe_read(d):
+    """sliced reads through the proxy: {'err':..} or {'line', 'results', 'whole', 'shape', ...}"""
+    import warnings
+    from nibabel import parrec
+    _COUNTER[0] += 1
+    base = os.path.join(_tmpdir(), 'r%d_%d' % (os.getpid(), _COUNTER[0]))
+    try:
+        with open(base + '.PAR', 'w') as f:
+            f.write(par_text(d))
+        with open(base + '.REC', 'wb') as f:
+            f.write(rec_bytes(d))
+        with warnings.catch_warnings():
+            warnings.simplefilter('ignore')
+            try:
+                img = parrec.load(base + '.PAR', permit_truncated=bool(d['permit']), scaling=d['scaling'],
+                                  strict_sort=bool(d['strict']), mmap=False)
+                hdr = img.header
+                shape = tuple(int(v) for v in img.shape)
+                whole = np.asarray(img.dataobj)
+                raw_whole = np.asarray(img.dataobj.get_unscaled())
+                slopes, inters = hdr.get_data_scaling(d['scaling'])
+                SL = np.broadcast_to(slopes, shape)
+                IN = np.broadcast_to(inters, shape)
+            except Exception as e:
+                return {'err': errname(e)}
+            S = shape[2]
+            V = shape[3] if len(shape) > 3 else 1
+            K = np.broadcast_to(np.arange(S * V).reshape((1, 1) + shape[2:], order='F'), shape)
+            results, texts, raws = [], [], []
+            for sl in d['slicers']:
+                idx = _to_index(sl)
+                try:
+                    res = np.asarray(img.dataobj[idx])
+                except Exception as e:
+                    results.append(errname(e))
+                    texts.append(errname(e))
+                    raws.append(None)
+                    continue
+                results.append(res)
+                raw = None
+                if hasattr(img.dataobj, '_get_unscaled'):
+                    try:
+                        raw = np.asarray(img.dataobj._get_unscaled(idx))
+                    except Exception as e:
+                        raw = errname(e)
+                raws.append(raw)
+                if res.size == 0:
+                    texts.append('[]')
+                    continue
+                try:
+                    sl_, in_, ki = SL[idx], IN[idx], K[idx]
+                    if ki.shape != res.shape:
+                        raise ValueError('shape')
+                    P = np.rint((res - in_) / sl_)
+                    exact = (P.astype(raw_whole.dtype) * sl_ + in_) == res
+                    ex = _expand(idx, len(shape))
+                    ss = _axis_positions(ex[2], S)
+                    vs = _axis_positions(ex[3], V) if len(shape) > 3 else [0]
+                    ids = []
+                    for v in vs:
+                        for s_ in ss:
+                            m = ki == s_ + S * v
+                            vals = np.unique(P[m]) if m.any() and exact[m].all() else []
+                            ids.append(int(vals[0]) if len(vals) == 1 else -1)
+                    texts.append('[%s]' % ','.join(map(str, ids)))
+                except Exception:
+                    texts.append('[?shape=%s]' % (res.shape,))
+            return {'line': 'ok r=' + '|'.join(texts), 'results': results, 'raws': raws, 'whole': whole,
+                    'raw_whole': raw_whole, 'shape': shape}
+    finally:
+        for ext in ('.PAR', '.REC'):
+            try:
+                os.unlink(base + ext)
+            except OSError:
+                pass
+
+
+def oracle_read(case, out):
+    """a sliced read through the proxy equals the same index applied to the whole array, and to the array
+    assembled from the labels"""
+    d = case.data
+    o = case.extra if case.extra is not None and case.extra.get('line', case.extra.get('err')) == out else observe_read(d)
+    if 'err' in o:
+        return None                      # loading itself is judged by the load case of the same data set
+    whole, raw_whole, shape = o['whole'], o['raw_whole'], o['shape']
+    exp_nvol, expected = expected_records(d)
+    E = None
+    S = d['max'][0]
+    if expected is not None and shape[2:] == ((S, exp_nvol) if exp_nvol > 1 else (S,)):
+        E = np.empty(shape, dtype=np.float64, order='F')
+        Ef = E.reshape(shape[:2] + (-1,), order='F')
+        for k, r in enumerate(expected):
+            es, ei = _expected_scale(d, r)
+            Ef[:, :, k] = np.float64(r[F['payload']]) * np.float64(es) + np.float64(ei)
+    for sl, res, raw in zip(d['slicers'], o['results'], o['raws']):
+        idx = _to_index(sl)
+        try:
+            want = whole[idx]
+        except Exception:
+            want = None
+        if want is None:
+            if not isinstance(res, str):
+                return 'partial: dataobj[%s] returned an array, NumPy indexing of the whole array raises' % (sl,)
+            continue
+        if isinstance(res, str):
+            return 'partial: dataobj[%s] raised %s, the whole array can be indexed like that' % (sl, res)
+        if res.shape != want.shape or not np.array_equal(res, want):
+            return ('partial: dataobj[%s] differs from np.asarray(dataobj)[%s] (shape %s vs %s)'
+                    % (sl, sl, res.shape, want.shape))
+        if raw is not None:
+            if isinstance(raw, str) or raw.shape != raw_whole[idx].shape or not np.array_equal(raw, raw_whole[idx]):
+                return 'partial: unscaled sliced read [%s] differs from get_unscaled()[%s]' % (sl, sl)
+        if E is not None:
+            we = E[idx]
+            if we.shape != res.shape or not np.allclose(res, we, rtol=1e-9, atol=1e-9):
+                return 'partial: dataobj[%s] differs from the label-assembled array' % (sl,)
+    return None
+
+
 def oracle(case, out):
     d = case.data
+    if d.get('op') == 'read':
+        return oracle_read(case, out)
     if d.get('op') in ('volnos', 'isfull'):
         return oracle_helper(d, out)
     o = case.extra if case.extra is not None and obs_line(case.extra) == out else observe(d)
@@ -554,24 +787,7 @@ def oracle(case, out):
             problems.append('scaling: scaled output slice %d is %r, expected %r = %d * %r + %r' % (k, got, want, p, es, ei))
             break
     # ---- expected content
-    expected = None
-    if d['strict'] and not dup and edge in (None, 'missing-volume', 'wrong-max', 'slice-gap'):
-        if complete:
-            keys = sorted(complete)
-            expected = [r for k in keys for r in complete[k]]
-            exp_nvol = len(keys)
-        else:
-            exp_nvol = 0
-    elif not d['strict'] and edge in (None, 'missing-volume', 'wrong-max', 'dup-labels', 'nodiff-bvals'):
-        # lax order: volume v is made of the v-th occurrence of every slice number, in file order
-        occ = {}
-        for r in d['recs']:
-            occ.setdefault(r[0], []).append(r)
-        exp_nvol = min(len(occ.get(s, [])) for s in range(1, S + 1))
-        if exp_nvol:
-            expected = [occ[s][v] for v in range(exp_nvol) for s in range(1, S + 1)]
-    else:
-        exp_nvol = None
+    exp_nvol, expected = expected_records(d)
     if exp_nvol is not None:
         if exp_nvol == 0:
             return ('shape: no complete volume in the recording but an image of shape %s was returned'
@@ -646,6 +862,8 @@ def signature(case, what):
     what = str(what)
     if d.get('op') in ('volnos', 'isfull'):
         return 'parrec:helper:' + d['op']
+    if d.get('op') == 'read':
+        return 'parrec:partial-read:strict=%s:%s' % (d.get('strict'), what.split(':')[0])
     cat = what.split(':')[0].split()[0] if what else 'none'
     lab, occ, strict, permit = domain(d)
     if permit and cat == 'shape':
@@ -667,6 +885,15 @@ def shrink_candidates(case):
     if d0.get('op') in ('volnos', 'isfull'):
         for i in range(len(d0['sl'])):
             yield mk_helper(d0['op'], d0['smax'], d0['sl'][:i] + d0['sl'][i + 1:])
+        return
+    if d0.get('op') == 'read':
+        if len(d0['slicers']) > 1:
+            for i in range(len(d0['slicers'])):
+                yield mk_read_case(d0, [d0['slicers'][i]], case.stream)
+        dom = domain(d0)
+        for c in _shrink_raw(case):
+            if domain(c.data) == dom:
+                yield mk_read_case(dict(d0, recs=c.data['recs']), d0['slicers'], case.stream)
         return
     dom = domain(d0)
     for c in _shrink_raw(case):
